@@ -104,6 +104,9 @@ type World struct {
 	BlockHash  common.Uint256
 	Validators []*account.Account // genesis consensus peers, index i+1
 	nonce      uint32
+	// PersistBlocks makes NextBlock end the block the way the ledger does (see Persist). Off by
+	// default: several harnesses read Overlay.GetWriteSet() as "everything written since genesis".
+	PersistBlocks bool
 }
 
 type Opts struct {
@@ -231,9 +234,27 @@ func (w *World) Exec(tx *types.Transaction) (res Result) {
 // NextBlock advances height and time like a new block (the block overlay keeps accumulating;
 // reads go through it, so this is equivalent to committing and reopening for contract code).
 func (w *World) NextBlock() {
+	if w.PersistBlocks {
+		w.Persist()
+	}
 	w.Height++
 	w.Time += 2
 	w.BlockHash = common.Uint256(sha256.Sum256([]byte(fmt.Sprintf("blk-%d", w.Height))))
+}
+
+// Persist ends the current block the way the ledger's submitBlock does: the block overlay is
+// written to the backing store and a fresh overlay and transaction cache are opened over it, so
+// later transactions read committed state through an empty overlay (and deletes made in a later
+// block shadow PERSISTED values - the boundary a never-flushed overlay cannot exercise).
+// Overlay and Cache are replaced: do not hold on to the old pointers.
+func (w *World) Persist() {
+	w.Store.NewBatch()
+	w.Overlay.CommitTo()
+	if err := w.Store.BatchCommit(); err != nil {
+		panic("world: persist: " + err.Error())
+	}
+	w.Overlay = overlaydb.NewOverlayDB(w.Store)
+	w.Cache = storage.NewCacheDB(w.Overlay)
 }
 
 // Dump returns every key/value visible through the block layer (store + uncommitted overlay),
